@@ -112,6 +112,11 @@ func (s *sharedEntryAttributes) toJsonInternal(onlyNewOrUpdated bool, ietf bool)
 				}
 			}
 			if len(result) == 0 {
+				// a presence container that carries a value of its own is rendered
+				// also if none of its childs is (e.g. all of them are being deleted)
+				if s.schema.GetContainer().IsPresence && s.presenceValueToRender(onlyNewOrUpdated) {
+					return map[string]any{}, nil
+				}
 				return nil, nil
 			}
 			return result, nil
